@@ -110,6 +110,14 @@ class Run(Part):
         for c, m in self.min_events.items():
             if self.counters.get(c, 0) < m:
                 inconclusive.append("counter %s = %d < required %d" % (c, self.counters.get(c, 0), m))
+        try:
+            # margins of the coverage requirements (tools/margins.py summarises them over many seeds)
+            with open(os.path.join(VERIF, "out", "margins.log"), "a") as fh:
+                for c, m in self.min_events.items():
+                    if m > 0:
+                        fh.write("%s %s %s %s %d %d\n" % (self.prop, self.tier, self.seed, c.replace(" ", "_"), self.counters.get(c, 0), m))
+        except OSError:
+            pass
         distinct = len(self.signatures)
         cov = {
             "evaluations": int(self.evaluations),
